@@ -51,6 +51,10 @@ CLAIMED = {
             "complete product of option-state recipes x refusing calls x offending positions, bit-identical dump before/after (values, annotation, RESET/MODIFIED), plus random interleavings with successful calls",
             "Refusals are refusals by construction; the dump goes through public getters plus the public flag bits.",
             "exhaustive product enumeration + Hypothesis interleavings, snapshot-equality invariant"),
+    "C11": ("exploration", "5.C11",
+            "differential against stepwise navigation: every option/section instance of generated trees x every qualifier form of every step and systematically broken variants; pointer identity, setter/size/rmsec effects, unchanged dump",
+            "The tree is enumerated from the reference model; grey zone as stated in the evidence.",
+            "property-based testing (Hypothesis trees) + systematic path-form enumeration, differential oracle against single-level accessors"),
 }
 PENDING = {}
 props = [json.loads(l) for l in open(os.path.join(V, "properties.jsonl"))]
